@@ -12,8 +12,10 @@
    What is proved below, over the model of the code as it is now (after the fixes listed in
    the report): all of it, for every uint16 constraint, every list of lines and every character
    width, with these limits — the line scanners and ctx.Characters are oracles (the theorems
-   hold for whatever lines they yield); list.Dynamic is modelled in its initial scroll state
-   only (scrolling is C19); styles and the cursor part of render are not modelled. *)
+   hold for whatever lines they yield); list.Dynamic is modelled in its initial scroll state and
+   in the states a history of draws without events reaches from it (scrolling by events is
+   C19); styles and the cursor part of render are not modelled.  The contract is proved for a
+   single draw of a fresh value and for every draw of every history of draws on one value. *)
 From Vx Require Import base.Prelude model.Surface model.Widgets model.WidgetsHist
   proofs.SurfaceProofs proofs.WidgetsProofs proofs.RenderProofs proofs.PaintProofs
   proofs.WidgetsHistProofs.
